@@ -2,7 +2,7 @@
 import re
 
 from ..engine import prop, rule
-from ..facts import op_local, op_place, is_place, backward_slice, copy_chain_sources, IDENTITY_CALLS
+from ..facts import op_local, op_place, is_place, backward_slice, copy_chain_sources, IDENTITY_CALLS, switch_on, bool_edges
 from .. import lib, trans
 from .c02 import root_descr, field_writers, hands_out
 from .c07 import role, flavour_events, tu_roles, SIDES
@@ -355,3 +355,48 @@ def refresh_keeps_order(ctx):
     from . import c04
     c04.orientation(ctx)
     c04.keep_old_merge(ctx)
+
+
+@rule('C01', 'combine-visits-every-dimension')
+def combine_visits_every_dimension(ctx):
+    """The set of rights is the product over ALL dimensions: `combine` handles its first dimension and recurses on the rest;
+    the only way out without recursing is the empty list. (A base case also taken for, say, a dimension that has no attribute
+    yet would drop every dimension listed after it from the universe of rights.)"""
+    from .c02 import root_descr
+    F = ctx.F
+    key = 'abe_policy::access_structure::combine'
+    body = F.fn(key)
+    rec = [c for c in body.calls(r'access_structure::combine$') if lib.local_callee(F, c) is body]
+    ctx.check(bool(rec), key, 'recursive', 'combine no longer recurses on the remaining dimensions', '', body.where())
+    if not rec:
+        return
+    # edges on which the list of dimensions is known to be empty
+    empty = []
+    for c in body.calls(r'core::slice::<impl \[T\]>::is_empty$', r'::is_empty$'):
+        if any(r[0] == 'param' and r[1] == 1 and not [x for x in r[2]] for r in root_descr(body, c.args[0])):
+            for (sb, neg) in switch_on(body, c.dest['l']):
+                te, fe = bool_edges(body, sb, neg)
+                if te:
+                    empty.append(te)
+    for c in body.calls(r'core::slice::<impl \[T\]>::(split_first|split_last|first|last)$'):
+        if any(r[0] == 'param' and r[1] == 1 for r in root_descr(body, c.args[0])):
+            for b in sorted(body.live_blocks()):
+                t_ = body.term(b)
+                if t_['k'] == 'switch' and is_place(t_['d']):
+                    _, d = lib.resolve_copy(body, op_local(t_['d']))
+                    if d is not None and d.kind == 'assign' and d.rv['k'] == 'discr' and not d.rv['pl']['p'] \
+                            and lib.resolve_copy(body, d.rv['pl']['l'])[0] == c.dest['l'] or (d is not None and d.kind == 'assign' and d.rv['k'] == 'discr' and d.rv['pl']['l'] == c.dest['l']):
+                        cases = {v: tgt for v, tgt in t_['cases']}
+                        if 0 in cases:
+                            empty.append((b, cases[0]))
+                        elif 1 in cases and t_['else'] in body.succs[b]:
+                            empty.append((b, t_['else']))
+    for cmp_ in lib.comparisons(body):
+        ca, cb = lib.classify_scalar(body, cmp_['a']), lib.classify_scalar(body, cmp_['b'])
+        if cmp_['op'] == 'Eq' and ((ca[0] == 'len' and cb == ('const', 0)) or (cb[0] == 'len' and ca == ('const', 0))):
+            empty.append(cmp_['te'])
+    r = body.reach(0, avoid_blocks=[c.b for c in rec], avoid_edges=empty)
+    esc = [b for b in body.return_blocks() if b in r]
+    ctx.check(bool(empty) and not esc, key, 'no base case but the empty list',
+              'combine can return without recursing on the remaining dimensions although the list is not empty: the dimensions after '
+              'the one that triggers this are dropped from every right', 'every non-empty input recurses', body.where())
